@@ -29,9 +29,10 @@ META = {
                  "scripted random sequences over more peers with TLC-computed expectations",
     "level": "model_checking",
     "level_text": "TLC checks the six C42 formulas on every (metadata state, snapshot) pair over 2 peers with valid, "
-                  "invalid (address / host_id / dc / rack / tokens missing), duplicated and mixed rows, 2 locations and 2 "
-                  "token sets per host (thorough: also 3 peers), as base case (first refresh at connect) and inductive "
-                  "step, so sequences of any length over these hosts are covered. Every pair is then executed on the real "
+                  "invalid (rack / tokens missing; thorough: every kind of missing column on 1 peer, mixed valid+invalid "
+                  "rows, a row duplicating the control node, forced rebuilds, 3 peers), duplicated rows, 2 locations and 2 "
+                  "token sets per host, as base case (first refresh at connect) and inductive step, so sequences of any "
+                  "length over these hosts are covered. Every pair is then executed on the real "
                   "driver and the projected metadata, listener notifications, policy notifications and token ring must "
                   "equal the specification's post-state; seeded random 3-snapshot sequences over 4/5 peers are evaluated "
                   "by TLC (invariants on) and replayed the same way.",
@@ -52,20 +53,18 @@ def _configs(quick):
     base = {"Locs": {"a", "b"}, "TokVs": {1, 2}, "Forces": {False}}
     if quick:
         return [
-            ("2 peers, 4 row shapes", dict(base, Peers={1, 2}, Shapes={"absent", "valid", "notok", "dup"},
+            ("2 peers, 5 row shapes", dict(base, Peers={1, 2}, Shapes={"absent", "valid", "norack", "notok", "dup"},
                                            LocalLocs={"a"}, CtlDups={False}), False),
-            ("1 peer, all row shapes, control duplicate", dict(base, Peers={1}, Shapes=set(ALL_SHAPES),
-                                                               LocalLocs={"a", "b"}, CtlDups={False, True}), True),
         ]
     return [
-        ("2 peers, 7 row shapes", dict(base, Peers={1, 2},
-                                       Shapes={"absent", "valid", "nohid", "notok", "dup", "inv_valid", "valid_inv"},
+        ("2 peers, 6 row shapes", dict(base, Peers={1, 2},
+                                       Shapes={"absent", "valid", "nohid", "dup", "inv_valid", "valid_inv"},
                                        LocalLocs={"a", "b"}, CtlDups={False}), False),
         ("1 peer, all row shapes, control duplicate, forced", dict(base, Peers={1}, Shapes=set(ALL_SHAPES),
                                                                    LocalLocs={"a", "b"}, CtlDups={False, True},
                                                                    Forces={False, True}), True),
-        ("3 peers, present/absent", dict(base, Peers={1, 2, 3}, Shapes={"absent", "valid"},
-                                         LocalLocs={"a"}, CtlDups={False}), True),
+        ("3 peers, present/absent, one location", dict(base, Peers={1, 2, 3}, Shapes={"absent", "valid"}, Locs={"a"},
+                                                       LocalLocs={"a"}, CtlDups={False}), True),
     ]
 
 
@@ -73,9 +72,12 @@ class Reporter:
     def __init__(self, ctx, label_of):
         self.ctx, self.label_of = ctx, label_of
         self.by_sig = {}
+        self.fatal = 0          # divergences other than a stale token map (those end a chain of refreshes)
 
     def __call__(self, st, d, sig, history):
         n = self.by_sig[sig] = self.by_sig.get(sig, 0) + 1
+        if set(d) != {"ring"}:
+            self.fatal += 1
         if n <= MAX_REPORT_PER_SIGNATURE:
             self.ctx.violation(
                 "%s: after Refresh the real metadata differs from the specification: %s (state before: %s; snapshot: %s)"
@@ -86,7 +88,7 @@ class Reporter:
                 signature=sig)
 
     def too_many(self):
-        return sum(self.by_sig.values()) > 5000
+        return self.fatal > 300
 
 
 def _is_nontrivial(st):
@@ -140,12 +142,19 @@ def run(ctx):
     ctx.note("exhaustive", True)
     timing = {}
 
+    if not ctx.quick:
+        # vacuity: every witness reachable (separate small run; in the quick tier the first configuration records them)
+        wconst = {"Locs": {"a", "b"}, "TokVs": {1, 2}, "Forces": {False}, "Peers": {1, 2},
+                  "Shapes": {"absent", "valid", "norack", "dup"}, "LocalLocs": {"a"}, "CtlDups": {False}}
+        rc.witnesses_reached("ControlRefresh", ctx.scratch, WITNESSES, init="InitBoth", next="NextOnce", constants=wconst)
+        ctx.note("vacuity_witnesses_reached", len(WITNESSES))
+
     # ---- exhaustive configurations: TLC (base case + inductive step), then every pair replayed
     total_edges = covered_edges = 0
     for name, consts, both_tables in _configs(ctx.quick):
         label[0] = name
         t0 = time.time()
-        first = name == _configs(ctx.quick)[0][0]
+        first = ctx.quick and name == _configs(ctx.quick)[0][0]     # quick: this run doubles as the witness run
         cfg = tlc.write_cfg(os.path.join(ctx.scratch, "refresh.cfg"), init="InitBoth", next="NextOnce", constants=consts,
                             invariants=INVARIANTS, deadlock=False,
                             constraints=["RecordWitnesses"] if first else (), postcondition="PrintWitnesses" if first else None)
@@ -240,13 +249,19 @@ def run(ctx):
         ctx.note("divergences_by_signature", rep.by_sig)
 
     # ---- binding self-test: corrupted expectations must be noticed by the comparison
-    probe = next(s for s in sts if len(s["known"]) >= 3 and s["l"] == 2)
-    h = rc.RefreshHarness(sconsts["Peers"])
-    proj = h.refresh(probe["act"])
-    h.shutdown()
-    base = rc.refresh_diff(probe, proj, None)
-    if base:
-        raise tlc.MachineryError("binding self-test: first refresh of a scripted sequence does not conform: %s" % base)
+    probe = proj = None
+    for cand in [s for s in sts if len(s["known"]) >= 3 and s["l"] == 2][:25]:
+        h = rc.RefreshHarness(sconsts["Peers"])
+        pj = h.refresh(cand["act"])
+        h.shutdown()
+        if not rc.refresh_diff(cand, pj, None):
+            probe, proj = cand, pj
+            break
+    if probe is None:
+        if rep.by_sig:
+            ctx.note("binding_selftest", {"skipped": "the code under test diverges on every probe"})
+            return
+        raise tlc.MachineryError("binding self-test: no conforming probe among the scripted sequences")
     n = 0
     victim = sorted(x for x in probe["known"] if x != 0)[0]
     for field, corrupt in (
